@@ -1,0 +1,22 @@
+//go:build verif
+
+package factory
+
+import (
+	"github.com/go-kid/ioc/container"
+)
+
+// VerifNew builds the default factory around caller-supplied registries. It exists only
+// under the build tag `verif` and is used by the verification harness in /verif to wrap the
+// real registries with an order-controlling / tracing decorator. Behaviour is otherwise
+// identical to Default().
+func VerifNew(def container.DefinitionRegistry, scr container.SingletonComponentRegistry) container.Factory {
+	f := Default().(*defaultFactory)
+	if def != nil {
+		f.definitionRegistry = def
+	}
+	if scr != nil {
+		f.singletonComponentRegistry = scr
+	}
+	return f
+}
